@@ -217,6 +217,8 @@ pub struct FnDecl {
     pub name: String,
     pub is_pub: bool,
     pub has_self: bool,
+    /// `&mut self` / `mut self` / `self` by value (anything but a shared `&self`)
+    pub mut_self: bool,
     pub line: usize,
 }
 
@@ -787,12 +789,22 @@ pub fn scan_file(rel: &str, src: &str, g: &Globals) -> FileScan {
                     }
                 }
                 let mut has_self = false;
+                let mut mut_self = false;
                 if at(j) == "(" {
                     let mut m = j + 1;
+                    let mut shared = false;
+                    let mut mutable = false;
                     while m < t.len() && (at(m) == "&" || at(m) == "mut" || at(m) == "'" || (m >= 1 && at(m - 1) == "'")) {
+                        if at(m) == "&" {
+                            shared = true;
+                        }
+                        if at(m) == "mut" {
+                            mutable = true;
+                        }
                         m += 1;
                     }
                     has_self = at(m) == "self";
+                    mut_self = has_self && (mutable || !shared);
                 }
                 let mut pd = 0i64;
                 while j < t.len() {
@@ -815,7 +827,7 @@ pub fn scan_file(rel: &str, src: &str, g: &Globals) -> FileScan {
                         continue;
                     }
                     if !nested {
-                        fs.fns.push(FnDecl { owner: owner.clone(), name: name.clone(), is_pub, has_self, line });
+                        fs.fns.push(FnDecl { owner: owner.clone(), name: name.clone(), is_pub, has_self, mut_self, line });
                     }
                     stack.push(B::Fn(name, j));
                     if !nested {
@@ -1294,6 +1306,7 @@ fn entry_points(tree: &Tree, out: &mut Out) -> serde_json::Value {
     let mut n_fns = 0usize;
     let mut n_driven = 0usize;
     let mut n_listed = 0usize;
+    let mut ro_undriven: Vec<String> = Vec::new();
     for (file, fs) in &tree.files {
         let tier = tier_of(file);
         // (a) harness-like public types anywhere outside src/bin and tests
@@ -1378,6 +1391,14 @@ fn entry_points(tree: &Tree, out: &mut Out) -> serde_json::Value {
                 if by_type {
                     n_listed += 1;
                 } else {
+                    // a new `&self` accessor cannot change what a simulation does: it is an observation nobody compares
+                    // yet, not an entry path nobody drives.  It is a violation only if its body holds a nondeterminism
+                    // site (then the site scan names it as well); otherwise it is listed in the evidence.
+                    let has_site = fs.sites.iter().any(|x| x.func == key);
+                    if f.has_self && !f.mut_self && !has_site {
+                        ro_undriven.push(format!("{} ({}:{})", key, file, f.line));
+                        continue;
+                    }
                     out.violation(&format!("C20:coverage:entry-not-driven:{}", key),
                         &format!("{}:{}: the public simulation entry point {} is never called by the C20 harness and is not listed in NOT_DRIVEN (harness/src/c20_src.rs)", file, f.line, key),
                         json!({"file": file, "line": f.line, "entry": key, "has_self": f.has_self}));
@@ -1405,7 +1426,8 @@ fn entry_points(tree: &Tree, out: &mut Out) -> serde_json::Value {
         out.violation("C20:source:scan-failed", &format!("implausibly few simulation entry points found ({} functions / fields, {} harness types): the source scan is broken", n_fns, seen_types.len()), json!({"root": repo_dir()}));
     }
     json!({"harness_table(type → level M modelled / E explored / K kernel op-by-op / N not driven)": rows, "entry_points_and_config_fields": n_fns, "driven": n_driven,
-           "listed_not_driven": n_listed, "stale_table_rows": stale})
+           "listed_not_driven": n_listed, "stale_table_rows": stale,
+           "readonly_accessors_not_driven(a new `&self` fn without a nondeterminism site: an observation nobody compares yet, not a violation)": ro_undriven})
 }
 
 // ------------------------------------------------------------------------------------------
@@ -1566,6 +1588,21 @@ pub const ALLOWED: &[(&str, usize, &str, &str)] = &[
     ("src/streaming/persistence.rs|StreamingPersistence::new|wall-clock|ProductionClock", 1, "inert", "ON the path of StreamingDSTHarness: the clock only stamps last_flush, which is read by should_flush alone — never called by a simulation file (allow-listed off-path, machine-checked)"),
 ];
 
+/// `inert` made checkable for values that are STORED: a struct field that holds a hidden input (a wall-clock
+/// reading) is inert only as long as nobody outside its producer reads it.  (field, the allow-list key of the
+/// read that fills it, files / functions that may mention `.field` — the producers, which copy it around).
+/// A `.field` read anywhere else in a simulation-reachable module breaks the justification:
+/// `C20:source:justification-broken:wall-clock:<producer>:inert` with the reader's file:line.
+pub const INERT_FIELDS: &[(&str, &str, &[&str])] = &[
+    ("created_at_ms", "src/streaming/object_store.rs|InMemoryObjectStore::now_ms|wall-clock|SystemTime::now",
+        &["src/streaming/object_store.rs", "src/streaming/s3_store.rs"]),
+    ("last_flush", "src/streaming/write_buffer.rs|WriteBuffer::flush|wall-clock|Instant::now",
+        &["src/streaming/write_buffer.rs|WriteBuffer::should_flush", "src/streaming/write_buffer.rs|WriteBuffer::flush", "src/streaming/write_buffer.rs|WriteBufferInner::new",
+          // the field of the same name in StreamingPersistence (stamped by its injected clock): read by should_flush alone,
+          // which no simulation file calls (allow-listed off-path, machine-checked)
+          "src/streaming/persistence.rs|StreamingPersistence::should_flush", "src/streaming/persistence.rs|StreamingPersistence::flush", "src/streaming/persistence.rs|StreamingPersistence::new"]),
+];
+
 /// calls that MUST be present: a harness whose fault decisions go through the thread-local BUGGIFY
 /// context installs its own configuration (474577c, defect C) — otherwise its trace depends on what
 /// ran earlier on the thread
@@ -1686,6 +1723,40 @@ fn sites(tree: &Tree, out: &mut Out) -> serde_json::Value {
     }
     if dump {
         let _ = std::fs::write(out.dir.join("sites.txt"), dumped);
+    }
+    // stored hidden inputs stay inert only while nobody else reads the field
+    for (field, producer, allowed_readers) in INERT_FIELDS {
+        let pat_a = format!(". {} ", field);
+        for (file, fs) in &tree.files {
+            if tier_of(file) == 0 {
+                continue;
+            }
+            for (func, body) in &fs.bodies {
+                let padded = format!("{} ", body);
+                // a read: `. field` not followed by `:` (struct literal) or `=` (assignment target)
+                let mut from = 0;
+                let mut reads = false;
+                while let Some(i) = padded[from..].find(&pat_a) {
+                    let after = padded[from + i + pat_a.len()..].trim_start();
+                    if !(after.starts_with("= ") && !after.starts_with("= =")) {
+                        reads = true;
+                    }
+                    from += i + pat_a.len();
+                }
+                if !reads {
+                    continue;
+                }
+                let here = format!("{}|{}", file, func);
+                if allowed_readers.iter().any(|a| *a == file.as_str() || *a == here) {
+                    continue;
+                }
+                let p: Vec<&str> = producer.split('|').collect();
+                let line = fs.fns.iter().find(|f| (if f.owner == "-" { f.name.clone() } else { format!("{}::{}", f.owner, f.name) }) == *func).map(|f| f.line).unwrap_or(0);
+                out.violation(&format!("C20:source:justification-broken:{}:{}::{}:inert", p[2], p[0], p[1]),
+                    &format!("{}:{}: {} reads the field `{}`, which holds a {} reading (`{}` in {}) allow-listed as `inert` because nobody read it: the hidden input now reaches this function", file, line, func, field, p[2], p[3], p[1]),
+                    json!({"file": file, "function": func, "line": line, "field": field, "producer": producer}));
+            }
+        }
     }
     for (file, func, needle, why) in REQUIRED {
         let body = tree.files.get(*file).and_then(|f| f.bodies.get(*func));
